@@ -315,6 +315,7 @@ class Blocks(object):
 
     def split(self, inactive):
         self.updateBlockPositions()
+        nsplits = 0
         for b in self._list:
             v = b.findMinLM()
             if not v is None and v.lm < Solver.LAGRANGIAN_TOLERANCE:
@@ -324,12 +325,15 @@ class Blocks(object):
                     self.insert(nb)
                 self.remove(b)
                 inactive.append(v)
+                nsplits += 1
+        return nsplits
 
 
 class Solver(object):
 
     LAGRANGIAN_TOLERANCE = -1e-4
     ZERO_UPPERBOUND = -1e-10
+    MAX_STATIONARY_PASSES = 20
 
     def __init__(self, vs, cs):
         self.vs = vs
@@ -344,6 +348,7 @@ class Solver(object):
         for c in self.inactive:
             c.active = False
         self.bs = None
+        self.lastSplits = 0
 
     def cost(self):
         return self.bs.cost()
@@ -387,7 +392,7 @@ class Solver(object):
     def satisfy(self):
         if self.bs is None:
             self.bs = Blocks(self.vs)
-        self.bs.split(self.inactive)
+        self.lastSplits = self.bs.split(self.inactive)
         v = self.mostViolated()
         while (v) and (
             v.equality or v.slack() < Solver.ZERO_UPPERBOUND and not v.active
@@ -422,8 +427,17 @@ class Solver(object):
         self.satisfy()
         lastcost = maxsize
         cost = self.bs.cost()
-        while abs(lastcost - cost) > 0.0001:
+        # A pass can leave the cost unchanged and still change the active set (a
+        # block is split and merged again through another tight constraint), after
+        # which the next pass does make progress. So stop only when the cost is
+        # stationary and the last pass had nothing to split; the bound guards
+        # against two equivalent active sets alternating at a degenerate optimum.
+        stationary = 0
+        while abs(lastcost - cost) > 0.0001 or (
+            self.lastSplits > 0 and stationary < Solver.MAX_STATIONARY_PASSES
+        ):
             self.satisfy()
             lastcost = cost
             cost = self.bs.cost()
+            stationary = stationary + 1 if abs(lastcost - cost) <= 0.0001 else 0
         return cost
